@@ -19,5 +19,43 @@ fn main() {
         let kept: Vec<&str> = text.lines().filter(|l| !l.trim_start().starts_with("#![")).collect();
         fs::write(out.join(format!("{name}.rs")), kept.join("\n")).unwrap();
     }
+    // the documentation examples (doctests) of src/lib.rs and of the README become ordinary tests
+    let mut doc = String::new();
+    let mut n = 0;
+    for (file, prefix) in [("src/lib.rs", "///"), ("README.md", "")] {
+        let src = format!("{repo}/{file}");
+        println!("cargo:rerun-if-changed={src}");
+        let text = fs::read_to_string(&src).unwrap_or_default();
+        let mut body: Option<(String, bool)> = None;
+        for line in text.lines() {
+            let t = line.trim_start();
+            if !prefix.is_empty() && !t.starts_with(prefix) {
+                body = None;
+                continue;
+            }
+            let t = t.strip_prefix(prefix).unwrap_or(t);
+            let t = t.strip_prefix(' ').unwrap_or(t);
+            if let Some(fence) = t.trim().strip_prefix("```") {
+                match body.take() {
+                    Some((code, should_panic)) => {
+                        n += 1;
+                        let tag = file.replace(['/', '.'], "_");
+                        doc += &format!("#[test]\n{}fn doc_{tag}_{n}() {{\n{code}}}\n", if should_panic { "#[should_panic]\n" } else { "" });
+                    }
+                    None => {
+                        let f = fence.trim();
+                        if f.is_empty() || f == "rust" || f == "should_panic" {
+                            body = Some((String::new(), f == "should_panic"));
+                        }
+                    }
+                }
+            } else if let Some((code, _)) = body.as_mut() {
+                let l = if t == "#" { "" } else { t.strip_prefix("# ").unwrap_or(t) };
+                code.push_str(l);
+                code.push('\n');
+            }
+        }
+    }
+    fs::write(out.join("doctests.rs"), doc).unwrap();
     println!("cargo:rerun-if-changed=Cargo.toml");
 }
